@@ -559,11 +559,14 @@ def _spec_c08(tier, seed):
 def spec_c09(tier, seed):
     q = tier == 'quick'
     srcs = ('gen', 'agen', 'rx4', 'rx4bp', 'rx3', 'rx3bp')
-    extra = [Cond('c09_cancel', 'c_cancel_library_sources', parts=[{'src': s, 'm': m} for s in srcs for m in ((2,) if q else (1, 2, 4))], timeout=400)]
+    extra = [Cond('c09_cancel', 'c_cancel_end_to_end', parts=[{'e2e_kind': k} for k in range(3)], timeout=900),
+             Cond('c09_cancel', 'c_cancel_library_sources', parts=[{'src': s, 'm': m} for s in srcs for m in ((2,) if q else (1, 2, 4))], timeout=400)]
     s = _hist_spec('c09_cancel', tier,
                    'Monitor: an application cancel produces exactly one CANCEL and nothing is delivered to the canceller afterwards '
                    '(also when the cancel races the next inbound frame); a CANCEL from the peer cancels the application publisher / '
-                   'handler future and no PAYLOAD/ERROR follows; the bystander is served. A second condition does the producer side '
+                   'handler future and no PAYLOAD/ERROR follows; the bystander is served. c_cancel_end_to_end joins a real client and a real server by the '
+                   'simulated link of C01 (cancel in the same tick as a small or multi-fragment request / with the request partly written / after delivery; '
+                   'message, TCP and blocking-writer links) and checks both ends. A further condition does the producer side '
                    'with each library stream source (CANCEL in the same read as the request, after j elements, after completion).',
                    [{'lease': True}], extra_conds=extra)
     s['functions'] = s['functions'] + ['rsocket.streams.stream_from_generator.StreamFromGenerator.cancel',
@@ -579,6 +582,7 @@ def spec_c10(tier, seed):
                       'partial frame remain for it (also with a FOLLOWS fragment pending), a new request on the id is accepted, and both '
                       'tables are empty once the bystander finished.',
                       [{'frag': True}, {'req_follows': True}, {'resp_no_pub': True, 'req_complete': True}, {'resp_no_pub': True}, {'req_complete': True}],
+                      extra_conds=[Cond('c09_cancel', 'c_cancel_end_to_end', parts=[{'e2e_kind': k} for k in range(2)], timeout=900)],
                       base={'probe_reuse': True})
 
 
